@@ -11,11 +11,6 @@ namespace MQ
 /-- stream `s` is registered: it is in the current reader group -/
 def reg (σ : Ring) (s : Nat) : Prop := s ∈ σ.groups σ.cur
 
-/-- the position a writer thread has claimed but not yet published -/
-def PC.claim : PC → Option Nat
-  | .tg h | .wr h _ | .ts h _ => some h
-  | _ => none
-
 /-- pcs of the single-writer path that rely on being the only writer -/
 def PC.singleSend : PC → Bool
   | .st false _ | .g1 false _ _ | .g2 false _ _ _ _ _ | .g3 false _ _ _ _ | .tcs _ _ | .rf false _ | .hd false _ => true
@@ -52,6 +47,7 @@ structure Glob (σ : Ring) : Prop where
   dlv : ∀ s, reg σ s → σ.dlv s = (σ.log.drop (σ.start s)).take (σ.pos s - σ.start s)
   tagwf : ∀ j t, σ.tag j = some t → t < σ.head ∧ t % σ.N = j
   curlt : σ.cur < σ.nextGrp
+  regest : ∀ s, reg σ s → σ.est s = true
 
 /-- facts a reader that examines position `p` of stream `s` has established -/
 def sawTag (σ : Ring) (s p : Nat) : Prop :=
@@ -64,12 +60,14 @@ def Loc (σ : Ring) (x : Th) : Prop :=
   | .st m h => h ≤ σ.head ∧ h ≤ σ.tc + σ.N ∧ (m = false → σ.head = h)
   | .g1 m h tl => h ≤ σ.head ∧ tl ≤ σ.tc ∧ h = tl + σ.N ∧ (m = false → σ.head = h ∧ σ.tc = tl)
   | .g2 m h tl p i md =>
-      h ≤ σ.head ∧ tl ≤ σ.tc ∧ h = tl + σ.N ∧ md ≤ σ.N ∧ p < σ.nextGrp ∧
-      (∀ j, j < i → j < (σ.groups p).length → h - md ≤ σ.pos ((σ.groups p).getD j 0)) ∧
+      h ≤ σ.head ∧ tl ≤ σ.tc ∧ h = tl + σ.N ∧ p ≤ σ.cur ∧
+      (p = σ.cur → md ≤ σ.N ∧ i < (σ.groups p).length ∧
+        ∀ j, j < i → j < (σ.groups p).length → h - md ≤ σ.pos ((σ.groups p).getD j 0)) ∧
       (m = false → σ.head = h ∧ σ.tc = tl)
   | .g3 m h tl p (some md) =>
-      h ≤ σ.head ∧ tl ≤ σ.tc ∧ h = tl + σ.N ∧ md ≤ σ.N ∧ p < σ.nextGrp ∧
-      (∀ j, j < (σ.groups p).length → h - md ≤ σ.pos ((σ.groups p).getD j 0)) ∧
+      h ≤ σ.head ∧ tl ≤ σ.tc ∧ h = tl + σ.N ∧ p ≤ σ.cur ∧
+      (p = σ.cur → md ≤ σ.N ∧
+        ∀ j, j < (σ.groups p).length → h - md ≤ σ.pos ((σ.groups p).getD j 0)) ∧
       (m = false → σ.head = h ∧ σ.tc = tl)
   | .g3 m h tl _ none => h ≤ σ.head ∧ tl ≤ σ.tc ∧ h = tl + σ.N ∧ (m = false → σ.head = h ∧ σ.tc = tl)
   | .tcs h cur => σ.head = h ∧ σ.tc ≤ cur ∧ cur ≤ h ∧ h ≤ σ.tc + σ.N ∧ (∀ s', reg σ s' → cur ≤ σ.pos s')
@@ -86,6 +84,11 @@ def Loc (σ : Ring) (x : Th) : Prop :=
   | .r4 p | .r5 p _ | .r6 p | .rd p _ => sawTag σ s p ∧ (x.single = true → σ.pos s = p)
   | .rc p _ c | .r8 p c | .r9 p _ c =>
       sawTag σ s p ∧ (x.single = true → σ.pos s = p) ∧ (σ.pos s ≤ p → c = σ.log[p]?)
+  | .fg _ _ => x.single = false
+  | .a1 | .a2 _ => σ.sused x.ns = true ∧ σ.est x.ns = false
+  | .a3 c _ ng =>
+      σ.sused x.ns = true ∧ σ.est x.ns = false ∧ c < ng ∧ ng < σ.nextGrp ∧ σ.groups ng = σ.groups c ++ [x.ns]
+  | .rr2 c ng => c < ng ∧ ng < σ.nextGrp ∧ σ.groups ng = (σ.groups c).filter (· != s)
   | .v1 p | .v2 p | .v3 p => σ.pos s = p
   | .vw p c | .vd p c | .v4 p c => σ.pos s = p ∧ p < σ.head ∧ σ.tag (p % σ.N) = some p ∧ c = σ.log[p]?
   | _ => True
@@ -97,6 +100,7 @@ structure RInvR (σ : Ring) (th : Nat → Th) : Prop where
   slots : ∀ i, i < σ.head → σ.head ≤ i + σ.N →
     (∃ t, (th t).pc.claim = some i) ∨ (σ.tag (i % σ.N) = some i ∧ σ.cont (i % σ.N) = σ.log[i]?)
   claiminj : ∀ t1 t2 h, (th t1).pc.claim = some h → (th t2).pc.claim = some h → t1 = t2
+  nsinj : ∀ t1 t2, (th t1).pc.addPC = true → (th t2).pc.addPC = true → (th t1).ns = (th t2).ns → t1 = t2
 
 def RInv (σ : St) : Prop := RInvR σ.ring σ.th
 
